@@ -493,7 +493,7 @@ def collapse(s):
 
 def normal(children, preserved=False, lead=(), declaration_as_pi=False):
     """The tree the property promises back, from a list of elements: adjacent text runs merged, a newline after
-    a doctype, whitespace-only runs (outside pre/textarea) normalised, empty text dropped; text classes are all
+    a doctype, whitespace-only runs of text (outside pre/textarea) normalised, empty text dropped; text classes are all
     'text'; special strings keep their class."""
     out = list(lead[:-1])
     pending = list(lead[-1:])
@@ -517,7 +517,7 @@ def normal(children, preserved=False, lead=(), declaration_as_pi=False):
             if declaration_as_pi and isinstance(c, Declaration):
                 out.append(("special", "ProcessingInstruction", s + "?"))
             else:
-                out.append(("special", type(c).__name__, s if preserved else collapse(s)))
+                out.append(("special", type(c).__name__, s))      # kept as it is, whitespace-only or empty included
             if isinstance(c, Doctype):
                 pending.append("\n")          # a newline follows a doctype
     flush()
@@ -582,16 +582,12 @@ def representable(el, xml):
             s = str.__str__(x)
             if cid in (3, 5):
                 return "string class the HTML parser cannot produce from its own rendering: " + type(x).__name__
-            if cid in (1, 2, 4, 6) and s == "":
-                return "empty special string"
             if cid == 4 and _COMMENT_CLOSE.search(s + "-->").start() != len(s):
                 return "comment text closes the comment"
             if cid == 1 and _MS_CLOSE.search(s + "]]>").start() != len(s):
                 return "CDATA text closes the section"
             if cid in (2, 6) and ">" in s:
                 return "'>' in a processing instruction / doctype"
-            if cid == 6 and s.strip(ASCII_WS) != s:
-                return "doctype with outer whitespace"
             if "\x00" in s or "\r" in s:
                 pass
     return None
